@@ -639,7 +639,12 @@ class _GoalEnv:
                 return {k: np.zeros(1, dtype=np.float32) for k in self.observation_space.spaces}, 0.0, False, False, {}
 
             def compute_reward(self, ag, dg, info):
-                return np.array([float(i.get("bonus", 0.0)) for i in info], dtype=np.float32) + np.asarray(ag)[..., 0] * 0.0
+                # the reward reads the top-level value AND values nested inside mutable containers of the info dict
+                # (a shallow per-dict copy keeps those containers shared with the caller)
+                def one(i):
+                    return (float(i.get("bonus", 0.0)) + 3.0 * float(i.get("nested", {}).get("b", 0.0))
+                            + 5.0 * float(np.asarray(i.get("arr", [0.0])).reshape(-1)[0]) + 7.0 * float((i.get("lst") or [0.0])[0]))
+                return np.array([one(i) for i in info], dtype=np.float32) + np.asarray(ag)[..., 0] * 0.0
 
         return G()
 
@@ -674,17 +679,21 @@ def run_her(case):
                 def mkobs(b):
                     return {kk: np.full((n, 1), b, dtype=np.float32) for kk in ("observation", "achieved_goal", "desired_goal")}
                 obs, nxt = mkobs(vals[0]), mkobs(vals[1])
-                infos = [{"bonus": float(vals[2] + i)} for i in range(n)]
+                infos = [{"bonus": float(vals[2] + i), "nested": {"b": float(vals[0] - i)}, "arr": np.array([float(vals[1] + i)]),
+                          "lst": [float(vals[3] + 2 * i)]} for i in range(n)]
                 args = {"obs": obs, "next_obs": nxt, "action": np.full((n, 1), 0.5, dtype=np.float32), "reward": np.zeros(n, dtype=np.float32),
                         "done": np.array([end] * n)}
                 snap, isnap = copy.deepcopy(args), copy.deepcopy(infos)
                 buf.add(obs, nxt, args["action"], args["reward"], args["done"], infos)
-                if not _same(args, snap) or infos != isnap:
+                if not _same(args, snap) or not _same(infos, isnap) or repr(infos) != repr(isnap):
                     problems.append(("oracle-argument-modified", f"op {k}: HerReplayBuffer.add modified the arrays / info dicts it was handed"))
                 holder.keep(f"op{k}.add", args)
                 if is_twin:
-                    for inf in infos:  # the caller changes the info dicts it passed in
+                    for inf in infos:  # the caller changes the info dicts it passed in, at every depth, in place
                         inf["bonus"] = float(SENTINEL)
+                        inf["nested"]["b"] = float(SENTINEL)
+                        inf["arr"][...] = float(SENTINEL)
+                        inf["lst"][0] = float(SENTINEL)
                 res = {}
             else:
                 np.random.seed(2000 + k)
